@@ -26,19 +26,20 @@ type vconn struct {
 	mu   sync.Mutex
 	cond *sync.Cond
 
-	start     time.Time
-	inbox     [][]byte // chunks from the peer, one Read consumes at most one
-	peerEOF   bool
-	closed    bool
-	rdl, wdl  time.Time
-	written   []byte
-	log       []event
-	ops       int
-	gates     map[string]chan struct{}
-	parked    map[string]bool
-	onWritten func(c *vconn) // peer script; called with mu held after every write
-	wake      *time.Timer
-	forced    bool
+	start      time.Time
+	inbox      [][]byte // chunks from the peer, one Read consumes at most one
+	peerEOF    bool
+	closed     bool
+	rdl, wdl   time.Time
+	written    []byte
+	log        []event
+	ops        int
+	gates      map[string]chan struct{}
+	parked     map[string]bool
+	onWritten  func(c *vconn) // peer script; called with mu held after every write
+	wake       *time.Timer
+	forced     bool
+	peerWrites int // real-TLS peer: Write calls of the server so far
 }
 
 func newVconn() *vconn {
@@ -49,9 +50,9 @@ func newVconn() *vconn {
 
 type timeoutError struct{}
 
-func (timeoutError) Error() string   { return "vconn: i/o timeout" }
-func (timeoutError) Timeout() bool   { return true }
-func (timeoutError) Temporary() bool { return true }
+func (timeoutError) Error() string        { return "vconn: i/o timeout" }
+func (timeoutError) Timeout() bool        { return true }
+func (timeoutError) Temporary() bool      { return true }
 func (timeoutError) Is(target error) bool { return target == os.ErrDeadlineExceeded }
 
 var _ net.Error = timeoutError{}
@@ -211,9 +212,13 @@ func (c *vconn) setDeadlines(kind string, t time.Time, r, w bool) error {
 	return nil
 }
 
-func (c *vconn) SetDeadline(t time.Time) error      { return c.setDeadlines("SetDeadline", t, true, true) }
-func (c *vconn) SetReadDeadline(t time.Time) error  { return c.setDeadlines("SetReadDeadline", t, true, false) }
-func (c *vconn) SetWriteDeadline(t time.Time) error { return c.setDeadlines("SetWriteDeadline", t, false, true) }
+func (c *vconn) SetDeadline(t time.Time) error { return c.setDeadlines("SetDeadline", t, true, true) }
+func (c *vconn) SetReadDeadline(t time.Time) error {
+	return c.setDeadlines("SetReadDeadline", t, true, false)
+}
+func (c *vconn) SetWriteDeadline(t time.Time) error {
+	return c.setDeadlines("SetWriteDeadline", t, false, true)
+}
 
 func (c *vconn) Close() error {
 	c.mu.Lock()
@@ -241,16 +246,17 @@ func (c *vconn) LocalAddr() net.Addr  { return &net.TCPAddr{} }
 func (c *vconn) RemoteAddr() net.Addr { return &net.TCPAddr{} }
 
 type snapshot struct {
-	events        int
-	closedByDial  bool
-	rdl, wdl      time.Time
-	ops           int
+	events       int
+	closedByDial bool
+	rdl, wdl     time.Time
+	ops          int
+	peerWrites   int
 }
 
 func (c *vconn) snap() snapshot {
 	c.mu.Lock()
 	defer c.mu.Unlock()
-	s := snapshot{events: len(c.log), rdl: c.rdl, wdl: c.wdl, ops: c.ops}
+	s := snapshot{events: len(c.log), rdl: c.rdl, wdl: c.wdl, ops: c.ops, peerWrites: c.peerWrites}
 	for _, e := range c.log {
 		if e.Kind == "Close" {
 			s.closedByDial = true
